@@ -19,7 +19,9 @@ def run(chk):
     # configuration extremes
     extremes = []
     for cfg in ({"pre": [9] * 12, "password": 999999, "max": 0}, {"pre": [], "password": 0, "max": 1000000}, {"pre": [1], "max": 3, "currency": 752},
-                {"terminal_id": "", "max": 1}, {"terminal_id": "99999999", "max": 1}):
+                {"terminal_id": "", "max": 1}, {"terminal_id": "99999999", "max": 1}, {"terminal_id": "1", "max": 1}, {"terminal_id": "0052", "max": 1},
+                {"terminal_id": "abc", "max": 1}, {"terminal_id": "00000000", "max": 1}, {"serial": "", "max": 1}, {"read_card_timeout": 255, "max": 1},
+                {"read_card_timeout": 0, "max": 1}):
         for calls in ([{"op": "new"}, {"op": "begin", "token": [97]}, {"op": "commit", "token": [97], "amount": [1]}, {"op": "read_card"}],
                       [{"op": "begin", "token": [97]}, {"op": "cancel", "token": [97]}, {"op": "configure"}]):
             extremes.append({"config": cfg, "calls": calls, "plan": {"exchanges": [], "default": {"o": "ok", "status": {"amount": [1]}, "uid": [1, 2, 3, 4]}}})
